@@ -25,6 +25,42 @@ from sexp import Atom, opt  # noqa: E402
 
 MODEL = "setters"
 SHRINKABLE = True
+RULE = ("histories of 4-50 operations on a generated font (built in memory / loaded lazily from a generated UFO / just "
+        "saved): every attribute setter and container mutator of Glyph, Anchor, Guideline, Image, Component, Contour, "
+        "Layer, LayerSet, Font, Info, Features, Lib/Kerning/Groups and ImageSet with generated values (>= 20 % "
+        "same-value repeats), scripted scenarios at known positions (margins with and without vertical origin, undo of "
+        "a delete, rename away and back, delete then re-create under the old name, clear-all, layer default/order/"
+        "rename/delete, user hold brackets, edit-read-save, image and layer colour, contour reversal, dict items, "
+        "image set, font guidelines) plus one fixed history that visits every recorded call site; every delivery is "
+        "recorded by an early and a late observer that evaluate the getter inside the callback; non-trivial = at "
+        "least one payload delivery AND one will delivery; distinct = distinct (font, history)")
+ASSUMPTIONS = [
+    "under USER holds only the old value is judged against the values the getter had inside the bracket; 'value when "
+    "the observer is called' and will/did ordering are not claimed there (deferred delivery is the point of a hold)",
+    "Font.GlyphOrderChanged carries the stored lib value (None when absent) while font.glyphOrder normalises absent "
+    "to []: payload and getter are compared modulo None == []",
+    "values handed to setters are in the documented form (lists for unicodes / orders, integers for metrics, "
+    "4-tuples or UFO strings for colours); floats are compared with a 1e-9 tolerance",
+    "renaming a glyph or layer onto an existing name, and cyclic component references, are outside the domain "
+    "(the generator skips them)",
+    "a composite assignment (glyph.anchors = ..., font.guidelines = ..., copyDataFromGlyph) stopped half way by a "
+    "rejected element never releases the hold it imposed on itself (the object stays mute); the harness releases "
+    "that hold after the failed call and does not judge the call",
+    "python asserts enabled (no -O)",
+    "notifications sent while objects are CREATED by the operation (lazy loading, instantiateAnchor(dict), "
+    "copyDataFromGlyph's new objects) have no 'before': only their new value is judged",
+]
+TRUSTED = [
+    "harness/c08_world.py: PAYLOAD / WILL tables say which public getter each notification talks about",
+    "harness/c08_model.py: abstraction of an object's state into the model's store (through getters; peeks at "
+    "_image, _scheduledForDeletion, _shallowLoadedContours avoid triggering lazy creation) and value tokens "
+    "(equal token <=> Python ==)",
+    "harness/extract_notif.py: AST extractor (fails closed on unrecognised statement kinds, notification-name "
+    "expressions, payload shapes, decorators); which calls count as state changes is a syntactic rule "
+    "(receiver rooted at self/super, observation wiring excluded)",
+    "facts the model takes as arguments because they live outside the object's store: duplicate-identifier / "
+    "ownership rejections, fontTools' fontinfo validation, zero-area contours, image digests",
+]
 
 CLASS_OF = {"font": "Font", "info": "Info", "features": "Features", "lib": "Lib", "kerning": "Kerning",
             "groups": "Groups", "images": "ImageSet", "layers": "LayerSet", "layer": "Layer", "llib": "Lib",
@@ -117,7 +153,14 @@ def oracle(world, op, status, snap, members, events):
     viol = []
 
     def v(clause, ev, **kw):
-        d = dict(clause="C08/" + clause, signature="C08/%s/%s/%s" % (clause, site, ev.name if ev is not None else "-"),
+        detail = clause
+        if clause in ("will-after-change", "will-after-did"):
+            clause = "will-late"          # one finding per call site
+        if clause in ("will-late", "will-repeated"):
+            sig = "C08/%s/%s" % (clause, site)
+        else:
+            sig = "C08/%s/%s/%s" % (clause, ev.name if ev is not None else "-", site)
+        d = dict(clause="C08/" + clause, signature=sig, detail=detail,
                  op=op, status=status, notification=None if ev is None else ev.name)
         d.update({k: repr(x)[:200] for k, x in kw.items()})
         viol.append(d)
@@ -605,10 +648,153 @@ def gen_case(rng, maxops):
     return dict(spec=spec, origin=origin, ops=repeat_same(rng, ops))
 
 
+def known_sites_case(origin="memory"):
+    """one fixed history that visits every recorded call site (F23, F24, F37) with material to act on"""
+    def contour(x):
+        return {"id": None, "points": [[x, 0, "line"], [x, 100, "line"], [x + 50, 100, "line"], [x + 50, 0, "line"]], "owned": False}
+    base = {"unicodes": [65], "width": 500, "height": 0, "note": None, "lib": {}, "image": None,
+            "contours": [{"id": None, "points": [[0, 0, "line", False, None, None], [0, 50, "line", False, None, None],
+                                                  [60, 50, "line", False, None, None]]}],
+            "components": [], "anchors": [], "guidelines": []}
+    comp = dict(base, unicodes=[], contours=[], components=[["A", [1, 0, 0, 1, 5, 5], None], ["A", [1, 0, 0, 1, 9, 9], None]],
+                anchors=[[10, 20, "top", None, None], [30, 40, "bottom", None, None]],
+                guidelines=[[100, None, None, "gl", None, None]],
+                image={"fileName": "i1.png", "xOffset": 2, "color": "1,0,0,1"})
+    spec = {"layers": [{"name": "fore", "color": None, "lib": {}, "glyphs": {"A": base, "D": comp}}], "default": "fore",
+            "info": {}, "guidelines": [[None, 50, None, "base", None, None]], "kerning": {}, "groups": {}, "features": None,
+            "lib": {}, "images": {"i1.png": 1}, "data": {}}
+    d = ["glyph", 0, 1]       # sorted names: A, D
+    a = ["glyph", 0, 0]
+    ops = [
+        ["touch", d],
+        ["set", ["layer", 0], "color", "0,1,0,0.5"],                       # F37
+        ["set", d, "anchors", [{"x": 1, "y": 2, "name": "n"}]],            # F23 Glyph.anchors=
+        ["set", d, "guidelines", [{"x": 7}]],                              # F23 Glyph.guidelines=
+        ["call", d, "clearAnchors"], ["call", d, "clearGuidelines"],
+        ["call", d, "insertContour", 0, contour(0)], ["call", d, "clearContours"],
+        ["call", d, "decomposeComponent", 0],
+        ["call", d, "insertComponent", 0, "A", [1, 0, 0, 1, 0, 0], None, False], ["call", d, "decomposeAllComponents"],
+        ["call", d, "insertComponent", 0, "A", [1, 0, 0, 1, 0, 0], None, False], ["call", d, "clearComponents"],
+        ["call", d, "insertAnchor", 0, {"x": 3, "y": 4}, "dict"], ["call", d, "insertGuideline", 0, {"y": 9}, "dict"],
+        ["call", d, "insertContour", 0, contour(10)],
+        ["call", ["layer", 0], "insertGlyph", 0, 1, "new1"],               # F23 + F24 Layer.insertGlyph
+        ["call", a, "copyDataFromGlyph", 0, 1],                            # F23 Glyph.copyDataFromGlyph
+        ["call", d, "clear"],                                              # F23 Glyph.clear
+        ["call", ["font"], "clearGuidelines"],                             # F23 Font.clearGuidelines
+        ["set", ["font"], "guidelines", [{"y": 5}, {"x": 6}]],
+        ["set", ["font"], "guidelines", [{"y": 8}]],                       # F23 Font.guidelines=
+    ]
+    return dict(spec=spec, origin=origin, ops=ops, static=True)
+
+
+def _lines_worker(case):
+    import warnings
+    import logging
+    warnings.filterwarnings("ignore")
+    logging.disable(logging.CRITICAL)
+    sys.unraisablehook = lambda *a: None
+    return run_world(case)[4]
+
+
 def generate(rng, tier):
-    n, maxops = (260, 26) if tier == "quick" else (6000, 50)
+    import multiprocessing
+    n, maxops = (260, 26) if tier == "quick" else (5000, 50)
+    cases = [known_sites_case("memory"), known_sites_case("disk")]
     for i in range(n):
-        yield gen_case(rng, maxops)
+        cases.append(gen_case(rng, maxops))
+    # the model is started from the implementation's own pre-state (see model_lines): precompute the lines here,
+    # in parallel, so that vcheck's sequential model_lines() calls are cache hits
+    try:
+        ctx = multiprocessing.get_context("fork")
+        with ctx.Pool(min(16, os.cpu_count() or 1)) as pool:
+            all_lines = pool.map(_lines_worker, cases, chunksize=max(1, len(cases) // 128))
+        for c, l in zip(cases, all_lines):
+            _LINES[_key(c)] = l
+    except Exception:
+        pass
+    return cases
+
+
+def neighbourhood(case, step, rng):
+    """variants around a diverging step: the prefix, the step repeated (same value), the step followed by the
+    follow-ups the property talks about on the same target"""
+    ops = case["ops"]
+    prefix = ops[:step + 1]
+    op = ops[step]
+    yield dict(case, ops=prefix)
+    yield dict(case, ops=prefix + [copy.deepcopy(op)])
+    tgt = op[1] if len(op) > 1 and isinstance(op[1], list) else ["glyph", 0, 0]
+    kind = tgt[0]
+    if kind in SETTERS:
+        for attr in SETTERS[kind]:
+            for _ in range(3):
+                try:
+                    v = gen_value(rng, CLASS_OF[kind], attr)
+                except Exception:
+                    continue
+                yield dict(case, ops=prefix + [["set", tgt, attr, v], ["set", tgt, attr, v]])
+    if kind in ("glyph", "anchor", "guideline", "component", "contour", "image"):
+        g = ["glyph", tgt[1], tgt[2]]
+        for sc in ("margins", "undo-delete", "clear-all", "rename-back", "contours", "image"):
+            sops = scenario(rng, sc)
+            for o in sops:
+                if len(o) > 1 and isinstance(o[1], list) and o[1][0] in ("glyph", "contour", "image") and len(o[1]) >= 3:
+                    o[1][1], o[1][2] = g[1], g[2]
+            yield dict(case, ops=prefix + sops)
+    for origin in ("memory", "disk", "saved"):
+        if origin != case.get("origin"):
+            yield dict(case, origin=origin, ops=prefix)
+    yield case
+
+
+def search(rng, tier, broken):
+    """directed search after a broken obligation over the regenerated tables: scenario-dense histories"""
+    yield known_sites_case("memory")
+    for i in range(400 if tier == "quick" else 3000):
+        c = gen_case(rng, 12)
+        ops = []
+        for sc in rng.sample(SCENARIOS, 4):
+            ops += scenario(rng, sc)
+        c["ops"] = ops
+        yield c
+
+
+def extract(repo, lean_dir):
+    import extract_notif
+    return extract_notif.extract(repo, lean_dir)
+
+
+def static_oracle():
+    """sentence 3 on the live classes, written independently of the AST extractor: a documented name must occur
+    in the source of the class's module or of a base class's module as a string outside docstrings"""
+    import inspect
+    import re
+    import defcon.objects as pkg
+    import pkgutil
+    import importlib
+    viol = []
+    for mi in pkgutil.iter_modules(pkg.__path__):
+        mod = importlib.import_module("defcon.objects." + mi.name)
+        for cname, cls in inspect.getmembers(mod, inspect.isclass):
+            if cls.__module__ != mod.__name__ or not cls.__doc__ or "posts the following notifications" not in cls.__doc__:
+                continue
+            documented = re.findall(r"^\s*- ([A-Za-z]+\.[A-Za-z_]+)\s*$", cls.__doc__, re.M)
+            code = ""
+            attrs = set()
+            for k in cls.__mro__:
+                if k.__module__.startswith("defcon."):
+                    src = inspect.getsource(sys.modules[k.__module__])
+                    code += re.sub(r'"""[\s\S]*?"""', "", src)
+                for a, val in vars(k).items():
+                    if a.endswith("NotificationName") and isinstance(getattr(cls, a, None), str):
+                        attrs.add(getattr(cls, a))
+            for n in documented:
+                if n in attrs:
+                    continue
+                if not re.search(r'["\']%s["\']' % re.escape(n), code):
+                    viol.append(dict(clause="C08/documented-never-posted", signature="C08/documented-never-posted/" + n,
+                                     cls=cname, name=n))
+    return viol
 
 
 # ---------------------------------------------------------------------------------------------------
@@ -674,6 +860,8 @@ def run_world(case, per_op=None):
                 per_op(w, step, op, status, events, snap, members, held)
             outs.append(mout)
         stats["origin." + case.get("origin", "memory")] = 1
+        if case.get("static"):
+            viols.extend(static_oracle())
         return outs, viols, stats, w, lines
     finally:
         shutil.rmtree(tmpd, ignore_errors=True)
